@@ -29,6 +29,9 @@ pub enum Via {
     /// note of the library (and to a missing note); then every note set to its own text through didChange:
     /// every note was linked from another one before, and the edits removed those links
     Stale,
+    /// start-up with two blank lines before every note's text, then every note set to its own text through
+    /// didChange: only the position of every block changes
+    Shifted,
 }
 
 thread_local! {
@@ -40,16 +43,18 @@ pub fn via_from(v: &serde_json::Value) -> Via {
         "Touch" => Via::Touch,
         "Incremental" => Via::Incremental,
         "Stale" | "Rotated" => Via::Stale,
+        "Shifted" => Via::Shifted,
         _ => Via::Import,
     }
 }
 
 pub fn via_for(i: u64) -> Via {
-    match i % 4 {
+    match i % 5 {
         0 => Via::Import,
         1 => Via::Touch,
         2 => Via::Incremental,
-        _ => Via::Stale,
+        3 => Via::Stale,
+        _ => Via::Shifted,
     }
 }
 
@@ -96,6 +101,7 @@ pub fn database_with(state: &HashMap<String, String>, ext: &str, sequential: boo
     let initial: HashMap<String, String> = match via {
         Via::Incremental => HashMap::new(),
         Via::Stale => stale_state(state),
+        Via::Shifted => state.iter().map(|(k, t)| (k.clone(), format!("\n\n{}", t))).collect(),
         _ => state.clone(),
     };
     let mut db = liwe::database::Database::new(initial, sequential, MarkdownOptions { refs_extension: ext.to_string() });
@@ -114,6 +120,7 @@ pub fn server_with(state: &HashMap<String, String>, ext: &str, sequential: bool)
     let initial = match via {
         Via::Incremental => HashMap::new(),
         Via::Stale => stale_state(state),
+        Via::Shifted => state.iter().map(|(k, t)| (k.clone(), format!("\n\n{}", t))).collect(),
         _ => state.clone(),
     };
     let mut server = Server::new(ServerConfig { base_path: "/lib".to_string(), state: initial, sequential_ids: Some(sequential), configuration, lsp_client: LspClient::Unknown });
